@@ -32,7 +32,7 @@ func (r *c20rng) next() uint64 {
 func (r *c20rng) n(k int) int { return int(r.next() % uint64(k)) }
 
 var c20env = []string{envPort, envDbPath, envDirCount, envRootDirs, envGCPeriod, envNumWorkers, envSendDuration}
-var c20envVal = []string{"7002", "edb", "200", "er1;er2", "3m", "4", "7ms"}
+var c20envVal = []string{"7002", "edb", "200", "er1", "3m", "4", "7ms"}
 var c20envBad = []string{"abc", "", "-1", "", "5", "1.5", "ms"}
 var c20yamlKey = []string{"port", "dbPath", "maxDirCount", "rootDirs", "gcPeriod", "numWorkers", "sendDuration"}
 var c20yamlVal = []string{"7001", "fdb", "50", "[fr1, fr2]", "2m", "3", "5ms"}
@@ -80,7 +80,7 @@ func c20tok(i int, c Config) string {
 	case 2:
 		got, def, fv, ev, zero, clamp = c.Storage.MaxDirCount, uint64(defaultDirCount), uint64(50), uint64(200), uint64(0), uint64(100)
 	case 3:
-		got, def, fv, ev, zero = c.Storage.RootDirs, []string{defaultRootDir}, []string{"fr1", "fr2"}, []string{"er1", "er2"}, []string{}
+		got, def, fv, ev, zero = c.Storage.RootDirs, []string{defaultRootDir}, []string{"fr1", "fr2"}, []string{"er1"}, []string{}
 	case 4:
 		got, def, fv, ev, zero = c.Storage.GCPeriod, time.Minute, 2*time.Minute, 3*time.Minute, time.Duration(0)
 	case 5:
